@@ -12,6 +12,7 @@ package main
 import (
 	"context"
 	"fmt"
+	"os"
 	"strings"
 	"time"
 
@@ -23,6 +24,10 @@ type c06GoneCase struct {
 	TwoTasks bool `json:"two_tasks_on_the_dead_target"`
 	Other    bool `json:"a_task_on_another_target"`
 	Round    int  `json:"rounds_before_the_downstream_stops"`
+	// Idle: nothing is written upstream for 36 s before the downstream stops (no ticks, no rows), so the service's
+	// cached client of the target has expired (30 s keep-alive) and the first write after the stop finds no client
+	// and cannot create one: the write fails without a single rpc having been attempted
+	Idle bool `json:"idle_36s_before_the_stop"`
 }
 
 func runC06Gone(run *vf.Run) {
@@ -32,18 +37,30 @@ func runC06Gone(run *vf.Run) {
 		rnd := vf.Rand(run.Seed, "c06-gone", i)
 		cases = append(cases, c06GoneCase{Idx: i, TwoTasks: i%3 == 1, Other: i%3 == 2, Round: 1 + rnd.Intn(3)})
 	}
-	parallel(len(cases), 3, func(i int) {
+	if os.Getenv("C06_GONE_IDLE_ONLY") != "" {
+		cases = nil
+	}
+	for i := 0; i < run.Pick(1, 3); i++ {
+		cases = append(cases, c06GoneCase{Idx: n + i, TwoTasks: i == 1, Other: i == 2, Round: 1, Idle: true})
+	}
+	parallel(len(cases), 4, func(i int) {
 		c := cases[i]
-		tag := fmt.Sprintf("[downstream-gone case %d two-tasks=%v other-target=%v] ", c.Idx, c.TwoTasks, c.Other)
+		tag := fmt.Sprintf("[downstream-gone case %d two-tasks=%v other-target=%v idle=%v] ", c.Idx, c.TwoTasks, c.Other, c.Idle)
 		vios, inconclusive, replay := runC06GoneCase(c, fmt.Sprintf("c06-gone-%d", c.Idx))
 		run.Eval(1)
 		run.Count("cases_class_downstream-gone", 1)
 		if inconclusive != "" {
 			run.Inconclusive(tag + inconclusive)
+			if replay != nil {
+				fmt.Printf("C06-GONE-INCONCLUSIVE %s%s\n---- child log tail ----\n%v\n----\n", tag, inconclusive, replay["child_log_tail"])
+			}
 			return
 		}
 		run.Count("delivered_downstream-gone", 1)
-		run.Nontrivial(fmt.Sprintf("downstream-gone/%v/%v/%d", c.TwoTasks, c.Other, c.Round))
+		run.Nontrivial(fmt.Sprintf("downstream-gone/%v/%v/%d/%v", c.TwoTasks, c.Other, c.Round, c.Idle))
+		if c.Idle {
+			run.Count("delivered_downstream-gone-after-idle", 1)
+		}
 		for _, v := range vios {
 			run.Violate(v.key, tag+v.desc, replay)
 		}
@@ -115,8 +132,16 @@ func runC06GoneCase(c c06GoneCase, name string) (vios []vio, inconclusive string
 		}
 	}
 	// ---- the fault ----
+	if c.Idle {
+		rs.stopPump()
+		s.log(sevt{Kind: "note", Note: "upstream idle for 36 s (no ticks, no rows)"})
+		time.Sleep(36 * time.Second)
+	}
 	s.log(sevt{Kind: "note", Note: "downstream 0 stops"})
 	s.w.Targets[0].Stop()
+	if c.Idle {
+		rs.startPump(30 * time.Millisecond)
+	}
 	for r := 0; r < 3; r++ {
 		sendAll()
 		time.Sleep(50 * time.Millisecond)
@@ -127,9 +152,24 @@ func runC06GoneCase(c c06GoneCase, name string) (vios []vio, inconclusive string
 	}
 	add := func(k, d string) { vios = append(vios, vio{k, d}) }
 	mk := func() map[string]any {
+		if os.Getenv("C06_GONE_DEBUG") != "" {
+			for _, l := range strings.Split(s.tailChildLog(400000), "\n") {
+				if strings.Contains(l, "milvus client") || strings.Contains(l, "pause task") || strings.Contains(l, "fail to handle") || strings.Contains(l, "retry") {
+					if len(l) > 300 {
+						l = l[:300]
+					}
+					fmt.Println("C06-GONE-DEBUG", l)
+				}
+			}
+		}
 		return map[string]any{"case": c, "scenario": sc, "events": tailEvents(s.events(), 400), "child_log_tail": s.tailChildLog(3000)}
 	}
 	deadline := time.Now().Add(90 * time.Second)
+	if c.Idle {
+		// without a cached client every attempt is a fresh dial (about 22 s each until the sdk gives up), times the
+		// configured retries, per writing channel
+		deadline = time.Now().Add(240 * time.Second)
+	}
 	paused := map[int]bool{}
 	for len(paused) < len(owners) && time.Now().Before(deadline) {
 		if !s.childAlive() {
